@@ -66,6 +66,10 @@ def collect(h):
     h.find(rel2, r"case \*ViewStmt:\s*\n\s*analyseViewRefFields\(v\.Items, ictx\)", "analyse: pass 6")
     items.append(("parser_descriptor_refs_analysed", "bool",
                   "true" if re.search(r"case \*WsDescriptorStmt:\s*\n(\s*//[^\n]*\n)*\s*analyseRefFields\(v\.Items, ictx, appdef\.TypeKind_CDoc\)", body) else "false", rel2 + " analyse (pass 6)"))
+    # d412e0d3e: does an operation granted without columns win over column lists of the same statement?
+    body = h.func_body(rel2, r"^func analyseGrantOrRevoke\(", "analyseGrantOrRevoke")
+    h.find(rel2, r"opColumns\[op\] = \[\]appdef\.FieldName\{\}", "analyseGrantOrRevoke: operation without columns")
+    items.append(("parser_grant_whole_table_wins", "bool", "true" if re.search(r"wholeTable\[op\]\s*=\s*true", body) and re.search(r"if\s+!wholeTable\[op\]", body) else "false", rel2 + " analyseGrantOrRevoke"))
     # F30: are the nested tables of an inherited item list named in the package of the inherited table?
     body = h.func_body(rel, r"^func \(c \*buildContext\) fillTable\(", "fillTable")
     own = "c.fillTable(table.inherits.pkg, table.inherits.table)" in body
@@ -82,4 +86,11 @@ def collect(h):
     if not m:
         raise h.Missing(f"{rel2}: cannot locate checkColumn")
     items.append(("parser_grant_inherited_columns", "bool", "true" if re.search(r"t\s*=\s*t\.inherits\.table", m.group(1)) else "false", rel2 + " checkColumn (GRANT ... ON TABLE)"))
+    # F33: which list becomes IWorkspace.Ancestors(): the workspaces INHERITS names, or all inherited ones?
+    src = h.src(rel)
+    direct = bool(re.search(r"range\s+wb\.w\.directAncestors\s*\{\s*\n\s*ancestors\s*=\s*append", src))
+    allanc = bool(re.search(r"range\s+wb\.w\.inheritedWorkspaces\s*\{\s*\n\s*ancestors\s*=\s*append", src))
+    if direct == allanc:
+        raise h.Missing(f"{rel}: cannot decide which workspaces are passed to SetAncestors")
+    items.append(("parser_ancestors_direct", "bool", "true" if direct else "false", rel + " workspaces(): SetAncestors"))
     return items
